@@ -561,6 +561,16 @@ def _exec_c17(script):
                                 _viol(viols, "C17.selection", "C17", 0, rep, "%s.get_selection() does not select %s" % (name, list(sp)))
                 except Exception as e:
                     _viol(viols, "C17.selection-crash", "C17", 0, rep, "get_selection raised %s: %s" % (type(e).__name__, str(e)[:200]), "crash")
+    import hashlib
+
+    h = hashlib.blake2b(digest_size=16)
+    for rep in sorted(results):
+        for key in sorted(results[rep], key=str):
+            got = results[rep][key]
+            h.update(("%s|%s|" % (rep, key)).encode())
+            if got is not None:
+                h.update(np.asarray(got[0]).tobytes() + np.asarray(got[1]).tobytes())
+    script["_digest"] = h.hexdigest()
     return viols, fired, len(script["ops"])
 
 
@@ -799,6 +809,6 @@ def run_session(seed, pid, tier, script=None):
         "probes": {},
         "signature": H(json.dumps(opseq)),
         "nontrivial": nops >= 3 and ("jit" in fired or "vmap" in fired),
-        "digest": "",
+        "digest": sc.pop("_digest", ""),
         "kinds": list(opseq)[:8],
     }
